@@ -475,28 +475,56 @@ def r4_extension_passthrough(repo=None):
     else:
         r.ok(site, "block i is written from row %s[i] of %s, at global index %s[i], with length next offset (or total length) minus "
                    "its own offset" % (T[3], T[1], T[2]))
-    # Python: contiguous + safe cast on every path
+    # Python: contiguous + safe cast on every path from the public write calls to the extension (helpers inlined)
     m = pyfront.mod("digital_rf_hdf5", repo)
-    q = "DigitalRFWriter._cast_input_array"
-    g = m.cfg(q)
-    contig = [n.id for n in g.nodes if any(pyfront.call_name(c) == "np.ascontiguousarray" for c in pyfront.node_calls(n))]
-    safe = [n.id for n in g.nodes if any(isinstance(c.func, ast.Attribute) and c.func.attr == "astype"
-                                         and pyfront.const(pyfront.kwarg(c, "casting")) == "safe"
-                                         for c in pyfront.node_calls(n))]
-    unsafe = [n for n in g.nodes if any(isinstance(c.func, ast.Attribute) and c.func.attr == "astype"
-                                        and pyfront.const(pyfront.kwarg(c, "casting")) != "safe"
-                                        for c in pyfront.node_calls(n))]
-    rets = [n for n in g.nodes if n.kind == "return"]
-    bad = [x for x in rets if x.id in g.reach([g.entry.id], avoid=contig, skip_labels=("exc",))
-           or x.id in g.reach([g.entry.id], avoid=safe, skip_labels=("exc",))]
-    if not rets:
-        raise AnalysisError("%s has no return" % q)
-    if bad or unsafe:
-        r.violation(m.rel, q, "return without ascontiguousarray + astype(casting='safe')", "data can reach the C library "
-                    "non-contiguous or after a lossy cast", line=(bad or unsafe)[0].line)
-    else:
-        r.ok("%s:%s %s" % (m.rel, m.fn(q).lineno, q), "every path to the return passes np.ascontiguousarray and an "
-             "astype(..., casting='safe')")
+    for q, ext_fn in (("DigitalRFWriter.rf_write", "_py_rf_write_hdf5.rf_write"),
+                      ("DigitalRFWriter.rf_write_blocks", "_py_rf_write_hdf5.rf_block_write")):
+        v = m.flat(q)
+        g = v.cfg()
+        calls = [n for n in g.nodes if any(pyfront.call_name(c) == ext_fn for c in pyfront.node_calls(n))]
+        if not calls:
+            raise AnalysisError("%s: call of %s not found" % (q, ext_fn))
+        # the data array: second argument of the extension call, and the names it is derived from
+        ec = [c for c in pyfront.node_calls(calls[0]) if pyfront.call_name(c) == ext_fn][0]
+        if len(ec.args) < 2 or not isinstance(ec.args[1], ast.Name):
+            raise AnalysisError("%s: data argument of %s is not a plain name" % (q, ext_fn))
+        chain, work = set(), [ec.args[1].id]
+        while work:
+            nm = work.pop()
+            if nm in chain:
+                continue
+            chain.add(nm)
+            for n in g.nodes:
+                if isinstance(n.ast, ast.Assign) and any(isinstance(t, ast.Name) and t.id == nm for t in n.ast.targets):
+                    v_ = n.ast.value
+                    roots = []
+                    if isinstance(v_, ast.Name):
+                        roots = [v_.id]
+                    elif isinstance(v_, ast.Call):
+                        f_ = v_.func
+                        if isinstance(f_, ast.Attribute) and isinstance(f_.value, ast.Name) and f_.value.id not in ("np", "numpy"):
+                            roots = [f_.value.id]
+                        elif v_.args and isinstance(v_.args[0], ast.Name):
+                            roots = [v_.args[0].id]
+                    work.extend(roots)
+
+        def on_chain(n):
+            return isinstance(n.ast, ast.Assign) and any(isinstance(t, ast.Name) and t.id in chain for t in n.ast.targets)
+        contig = [n.id for n in g.nodes if on_chain(n) and any(pyfront.call_name(c) == "np.ascontiguousarray" for c in pyfront.node_calls(n))]
+        safe = [n.id for n in g.nodes if on_chain(n) and any(isinstance(c.func, ast.Attribute) and c.func.attr == "astype"
+                                                             and pyfront.const(pyfront.kwarg(c, "casting")) == "safe"
+                                                             for c in pyfront.node_calls(n))]
+        unsafe = [n for n in g.nodes if on_chain(n) and any(isinstance(c.func, ast.Attribute) and c.func.attr == "astype"
+                                                            and pyfront.const(pyfront.kwarg(c, "casting", None) or ast.Constant("same_kind")) != "safe"
+                                                            for c in pyfront.node_calls(n))]
+        bad = [x for x in calls if x.id in g.reach([g.entry.id], avoid=contig, skip_labels=("exc",))
+               or x.id in g.reach([g.entry.id], avoid=safe, skip_labels=("exc",))]
+        if bad or unsafe:
+            r.violation(m.rel, q, "%s reachable without ascontiguousarray + astype(casting='safe')" % ext_fn, "data can reach the C "
+                        "library non-contiguous or after a lossy cast", line=(bad or unsafe)[0].line)
+        else:
+            r.ok("%s:%s %s" % (m.rel, calls[0].line, q), "every path to %s passes np.ascontiguousarray and an astype(..., "
+                 "casting='safe') (helpers inlined: %s)" % (ext_fn, ", ".join(v.inlined) or "none"))
     r.guard(4)
     return r
 
@@ -646,9 +674,15 @@ def r5_interface_agreement(repo=None):
     bv = fn.calls(("Py_BuildValue",))
     gu = m.fn("get_unix_time")
     tgt = None
+    holders = set()
     for n in ast.walk(gu):
-        if isinstance(n, ast.Assign) and isinstance(n.targets[0], ast.Tuple) and isinstance(n.value, ast.Call) \
-                and pyfront.call_name(n.value) == "_py_rf_write_hdf5.get_unix_time":
+        if isinstance(n, ast.Assign) and isinstance(n.value, ast.Call) and pyfront.call_name(n.value) == "_py_rf_write_hdf5.get_unix_time":
+            if isinstance(n.targets[0], ast.Tuple):
+                tgt = [ast.unparse(e) for e in n.targets[0].elts]
+            elif isinstance(n.targets[0], ast.Name):
+                holders.add(n.targets[0].id)
+    for n in ast.walk(gu):
+        if isinstance(n, ast.Assign) and isinstance(n.targets[0], ast.Tuple) and isinstance(n.value, ast.Name) and n.value.id in holders:
             tgt = [ast.unparse(e) for e in n.targets[0].elts]
     if not bv or tgt is None:
         raise AnalysisError("get_unix_time: Py_BuildValue or the Python unpacking not found")
